@@ -1640,3 +1640,129 @@ func lenAtEdge(v ssa.Value, pred, succ *ssa.BasicBlock, ptrBits, depth int) ival
 	}
 	return out
 }
+
+// pathGuardSets enumerates the feasible acyclic paths from the function entry
+// to block b (pruning paths that contradict themselves about one SSA value
+// compared with constants, as correlatedGuards does) and returns, per path, the
+// branch edges taken.  ok is false when some ancestor of b lies on a cycle or
+// the enumeration exceeds its budget.
+func pathGuardSets(b *ssa.BasicBlock) (paths [][]guardEdge, ok bool) {
+	fn := b.Parent()
+	if len(fn.Blocks) == 0 {
+		return nil, false
+	}
+	if fn.Blocks[0] == b {
+		return [][]guardEdge{nil}, true
+	}
+	dead := map[*ssa.BasicBlock]bool{}
+	for _, x := range fn.Blocks {
+		for _, ins := range x.Instrs {
+			if ci, ok := ins.(*ssa.Call); ok && isNoReturn(ci.Call.StaticCallee()) {
+				dead[x] = true
+			}
+		}
+	}
+	anc := map[*ssa.BasicBlock]bool{b: true}
+	work := []*ssa.BasicBlock{b}
+	for len(work) > 0 {
+		x := work[len(work)-1]
+		work = work[:len(work)-1]
+		for _, p := range x.Preds {
+			if !anc[p] {
+				anc[p] = true
+				work = append(work, p)
+			}
+		}
+	}
+	if !anc[fn.Blocks[0]] {
+		return nil, false
+	}
+	for x := range anc {
+		if x == b {
+			continue
+		}
+		for _, s := range x.Succs {
+			if anc[s] && blockReaches(s, x) {
+				return nil, false
+			}
+		}
+	}
+	type fact struct {
+		x  ssa.Value
+		k  *ssa.Const
+		eq bool
+	}
+	constEq := func(a, c *ssa.Const) bool {
+		if a.Value == nil || c.Value == nil {
+			return a.Value == nil && c.Value == nil
+		}
+		return constant.Compare(a.Value, token.EQL, c.Value)
+	}
+	contradicts := func(fs []fact, f fact) bool {
+		for _, g := range fs {
+			if g.x != f.x {
+				continue
+			}
+			same := constEq(g.k, f.k)
+			if g.eq && f.eq && !same {
+				return true
+			}
+			if g.eq != f.eq && same {
+				return true
+			}
+		}
+		return false
+	}
+	budget := 100000
+	var facts []fact
+	var edges []guardEdge
+	var rec func(x *ssa.BasicBlock) bool
+	rec = func(x *ssa.BasicBlock) bool {
+		budget--
+		if budget < 0 || len(paths) > 4000 {
+			return false
+		}
+		if x == b {
+			paths = append(paths, append([]guardEdge(nil), edges...))
+			return true
+		}
+		if dead[x] {
+			return true
+		}
+		iff, isIf := x.Instrs[len(x.Instrs)-1].(*ssa.If)
+		for i, s := range x.Succs {
+			if !anc[s] {
+				continue
+			}
+			nf, ne := len(facts), len(edges)
+			if isIf && len(x.Succs) == 2 && x.Succs[0] != x.Succs[1] {
+				truth := i == 0
+				if bo, ok := iff.Cond.(*ssa.BinOp); ok && (bo.Op == token.EQL || bo.Op == token.NEQ) {
+					for _, pr := range [][2]ssa.Value{{bo.X, bo.Y}, {bo.Y, bo.X}} {
+						if k, ok := pr[1].(*ssa.Const); ok {
+							if _, isC := pr[0].(*ssa.Const); !isC {
+								f := fact{pr[0], k, (bo.Op == token.EQL) == truth}
+								if contradicts(facts, f) {
+									goto next
+								}
+								facts = append(facts, f)
+							}
+							break
+						}
+					}
+				}
+				edges = append(edges, guardEdge{iff, truth})
+			}
+			if !rec(s) {
+				return false
+			}
+		next:
+			facts, edges = facts[:nf], edges[:ne]
+		}
+		return true
+	}
+	if !rec(fn.Blocks[0]) {
+		return nil, false
+	}
+	return paths, true
+}
